@@ -505,7 +505,7 @@ def bootstrap_step(rng, w, s, pid):
             if reg and rng.random() < 0.3:
                 w.paused_enable = pid
                 return ["Pause", OWNER, pid]
-            if reg and rng.random() < 0.1:
+            if reg and rng.random() < 0.2:
                 return ["RemovePair", OWNER, p["t1"], p["t2"]]      # the adder's pair is delisted before it opens
             return gen_enable(rng, w, s, pid, rng.random() < 0.7)
         if reg and rng.random() < 0.8:
@@ -678,8 +678,9 @@ def gen_op(rng, w, stats):
             return ["ConfigEnable", OWNER, rng.choice(w.common), 8, rng.choice([0, 1, 1000, 100000, 10 ** 7]), rng.choice([0, 0, 10, 100])]
     # pairs waiting in ActiveNoSwaps for their adder, registered or not (removed ones must be refused)
     waiting = [pid for pid in pairs if pairs[pid]["state"] == 2 and w.adders.get(pid) and pid not in reg]
-    if waiting and w.enable_cfg and rng.random() < 0.07:
-        return gen_enable(rng, w, s, rng.choice(waiting), rng.random() < 0.8)
+    if waiting and w.enable_cfg and rng.random() < (0.07 if w.__dict__.get("tried_removed") else 0.6):
+        w.tried_removed = True      # the first attempt on a delisted pair comes soon after the delisting, with valid arguments
+        return gen_enable(rng, w, s, rng.choice(waiting), rng.random() < 0.85)
     # bootstrap: enough live registered pairs
     if len(good) < w.cfg["target"] and rng.random() < 0.93:
         pending = [pid for pid in reg if not live(pairs[pid])]
